@@ -102,9 +102,10 @@ def correspondence(tag, cases_obs, shard=150):
 
 
 class AGen:
-    def __init__(self, rng, max_actions=18, drain=True, mix=False):
+    def __init__(self, rng, max_actions=18, drain=True, mix=False, block=False):
         self.r = rng
         self.mix = mix
+        self.block = block
         self.max_actions = max_actions
         self.drain = drain
 
@@ -162,6 +163,10 @@ class AGen:
                         subs.append(["emit", r.randrange(nsrc), val_to_json(self.nextval), md])
                     elif kind == "map_async" and v < 0.8:
                         subs.append(["task", r.choice([0, 0, 1])])
+                    elif v < 0.62 and self.block and kind in ("rate_limit", "delay", "buffer", "plain", "map_async"):
+                        # the loop callback takes a while: timers that fall due meanwhile have not run when the next
+                        # sub-action happens
+                        subs.append(["block", r.choice([1, 2, 4, 6, 9])])
                     else:
                         subs.append(["ack"])
                 acts.append(["mix", r.choice([-1, 0, 0, 1, 1, 2, 3]), subs])
